@@ -489,8 +489,8 @@ class Gen:
                 return bool(subs) and all(self._struct_requires(sub, targets, seen) for sub in subs)
             return self._struct_requires(d, targets, seen)
         tags = self.m.all_tags(d)
-        if not d.closed:
-            return False
+        # open unions too: the catch-all tag can be received but never sent, so a value of an open union
+        # needs one of its declared tags just like a closed one
         return bool(tags) and all(g.type is not None and self.requires(g.type, targets, seen) for g in tags)
 
     def _struct_requires(self, s, targets, seen):
